@@ -337,21 +337,33 @@ def _sub_ok(segs, args):
         return False
     return _comps_ok(split_components(segs))
 
-def _shape(s):
-    """every maximal digit run replaced by '#'"""
-    out, run = b"", False
-    for c in s:
-        if 48 <= c <= 57:
-            if not run:
-                out += b"#"
-            run = True
+def _toks(segs):
+    """the tokens of a path part: its literal characters (ints), and '#' for every '#N'"""
+    out = []
+    for k, v in segs:
+        if k == 'L':
+            out += list(v)
         else:
-            out += bytes([c]); run = False
+            out.append('#')
     return out
 
-def _key(segs):
-    """the path part with every '#N' and every digit run of the literal text replaced by '#'"""
-    return _shape(b"".join(v if k == 'L' else b"0" for k, v in segs))
+def _clash(a, b):
+    """NamesModel.clashb: literal characters must agree, '#N' against '#M' goes on behind both;
+    the end of either name, or a '#N' against a literal digit, is a clash"""
+    i = 0
+    while True:
+        if i >= len(a) or i >= len(b):
+            return True
+        x, y = a[i], b[i]
+        if x == '#' and y == '#':
+            pass
+        elif x == '#':
+            return 48 <= y <= 57
+        elif y == '#':
+            return 48 <= x <= 57
+        elif x != y:
+            return False
+        i += 1
 
 def _table_keys_free(t):
     ks = []
@@ -359,10 +371,10 @@ def _table_keys_free(t):
         r = _raw_segs(p)
         if r is None:
             return False
-        ks.append(_key(r[0]))
+        ks.append(_toks(r[0]))
     for i in range(len(ks)):
         for j in range(i + 1, len(ks)):
-            if ks[j].startswith(ks[i]) or ks[i].startswith(ks[j]):
+            if _clash(ks[i], ks[j]):
                 return False
     return True
 
